@@ -5,10 +5,9 @@ sys.path.insert(0, "/verif"); sys.path.insert(0, os.environ.get("VERIF_REPO_ROOT
 os.environ.setdefault("JAX_PLATFORMS", "cpu")
 from harness import algos, loopbind
 tier = os.environ.get("VERIF_TIER", "quick")
-scs = algos.scenarios(tier, int(os.environ.get("VERIF_SEED", "0")))
 trs = []
 for name in sys.argv[1:]:
-    for sc in scs:
+    for sc in algos.scenarios(tier, int(os.environ.get("VERIF_SEED", "0")), name):
         t = time.time()
         tr = algos.run(name, sc)
         tr["id"] = f"{name}:{sc['label']}"
